@@ -89,8 +89,26 @@ CLAIMS = {
         "(real arithmetic over the loop/unix clocks), an expired state is discarded.  The obligation 'the timer callback clears the "
         "fired handle' found the rejected-timed-event defect (saved expiry in the past), fixed in /repo.",
    note="Trusted: pyvc encoding, z3; SBlock.event (C11/C09), timer contracts (C04); the storage is a dict-like heap object; get_state() is "
-        "a function of the block state; clock reads of _get_timediff simultaneous. Unclaimed in this revision: the save sites inside the "
-        "coroutines run_forever/_init_sblocks_sync_2 ('nothing is written if start-up failed', stop timestamp)."),
+        "a function of the block state; clock reads of _get_timediff simultaneous.  The save sites of run_forever (states and stop "
+        "time written iff the start completed, before the blocks are stopped) and _init_sblocks_sync_2 are order-automaton obligations."),
+ 'C08': dict(
+   text="Circuit.run_forever, _stop_sblocks, _run_tasks, wait_init, _check_started, shutdown, is_current_task, check_not_finalized, "
+        "set_persistent_data and addblock are executed from the real AST; every await is an environment step under the guarantees "
+        "proved elsewhere.  run_forever: an order automaton over the whole life cycle, checked at every traced call: set-up, start() once "
+        "per block, the three initialisation steps in order after all blocks were started, _init_done only after a successful "
+        "initialisation, states and stop time saved iff the start completed and before stopping, _stop_sblocks exactly once with "
+        "exactly the set of blocks whose start() returned; it always ends by raising Circuit.error, which is the first recorded "
+        "error (history variable), and _simtask stays set (no restart).  _stop_sblocks: stop() once per given block, blocks with "
+        "asynchronous clean-up first, their stop_async tasks created with their own stop_timeout and awaited, errors of stop() do not "
+        "prevent the others.  _run_tasks: every wait ends at start + the entry's timeout, every task is finished at a normal return, "
+        "no task is left without a cancellation request when the wait is cancelled.  Three defects found by these obligations, replayed "
+        "and fixed in /repo (init tasks left running after a cancelled start; wait_init helper task left pending; wait_init returning "
+        "normally during the clean-up after a failed first evaluation - C05).",
+   note="Trusted: pyvc encoding, z3; asyncio (create_task, wait_for, wait, Event, Task.cancel/done/exception; a requested cancellation ends "
+        "a task unless its coroutine suppresses it); start()/stop()/stop_async of blocks are library/user code behind interface "
+        "contracts; A-cancel (only Circuit.abort cancels the simulation task: scan; from outside at most while no error is recorded); "
+        "A-caller.  Unclaimed in this revision: edzed.run(), block-level clean-up (AddonMainTask, OutputAsync/OutputFunc stop and "
+        "stop_data, FSM.stop is under C04), timers."),
  'C09': dict(
    text="Circuit.abort, SBlock.event (error classification), AddonAsync._task_monitor, ControlBlock._event_shutdown/_event_abort and "
         "Circuit.is_ready are executed from the real AST: abort keeps the first error and cancels the task only then; event() aborts "
@@ -98,7 +116,7 @@ CLAIMS = {
         "original; the task monitor aborts for errors and unexpected service exits but not for cancellation; write-once of "
         "Circuit._error is a scan obligation (writer set, guarded store in run_forever) plus solver lemmas (not ready stays not ready).",
    note="Trusted: pyvc encoding, z3, asyncio.Task.cancel/done, handler/coroutine interface contracts; traceback introspection "
-        "abstracted to one boolean; A-cancel. Unclaimed in this revision: what run_forever/run/shutdown re-raise (coroutine bodies)."),
+        "abstracted to one boolean; A-cancel, A-caller. Unclaimed in this revision: what edzed.run() raises with supporting tasks."),
  'C10': dict(
    text="Circuit._simulate (two while loops, an await, set operations, nested select_blk, try/raise) is executed from the real AST "
         "with a quantified loop invariant: every combinational block is in eval_set, or fed by a queued block, or consistent; and the "
